@@ -163,7 +163,9 @@ def patterns(tier: str, seed: int) -> list[dict]:
     for mean in ((0.02, 0.3, 3.0, 30.0) if deep else (0.02, 0.3, 3.0)):
         for rep in range(3 if deep else 1):
             t, calls = 0, []
-            for _ in range(300 if deep else 150):
+            # at means below ~1 s the calls pile up faster than the bucket refills: more than ~170 frames of
+            # concurrent debt leave the judge's 32-bit integers (1e-4 bit units), so that stream stays at 150 calls
+            for _ in range(300 if deep and mean >= 3.0 else 150):
                 t += S(rnd.expovariate(1 / mean))
                 calls.append([t, rnd.randint(1, 48)])
             add(f"random-open-loop-mean{mean}s-{rep}", calls=calls)
